@@ -58,3 +58,19 @@ Proof. vm_compute. repeat split; try reflexivity; discriminate. Qed.
 Lemma status_refuted :
   exists xx obj st v, st <> PrimAndDualFeas /\ mosek_solve_value xx obj st <> None /\ cvxpy_solve_value v st = None.
 Proof. exists [0%Q; 0%Q], 0, PrimInfeas, 0%Q. repeat split; cbn; discriminate. Qed.
+
+(** _recover_dual_values on a model with two LMIs of different sizes separated by scalar constraints
+    (rows: 0 = SC, 1 = the 1x1 LMI, 2 = SC, 3..6 = the 2x2 LMI), y = (10,11,...,16), getbarsj(1) = [5],
+    getbarsj(2) = [1;2;3] (lower triangle, column by column), getbarsj(0) = [7]:
+    scalar duals y[0], y[2]; LMI duals -[[5]] and -[[1,2],[2,3]]; entry duals -[[11]] and -[[13,14],[15,16]]. *)
+Definition w_two : sent :=
+  [SC [(KF 1, 1%Q); (KF 0, (- (1))%Q)] Ineq; LMI [[ [(KF 0, 1%Q)] ]];
+   SC [(KG 0 0, 1%Q); (K1, (- (1))%Q)] Ineq; LMI w_lmi].
+Lemma recover_example :
+  lmi_first_index 0 w_two = [1; 3] /\ sc_index 0 w_two = [0; 2]
+  /\ recover w_two 1 [10#1; 11#1; 12#1; 13#1; 14#1; 15#1; 16#1]%Q
+             (fun j => nth j [[7#1]; [5#1]; [1#1; 2#1; 3#1]]%Q [])
+     = ([[- (7#1)]]%Q,
+        [RScalar (10#1); RLmi [[- (5#1)]]%Q [[- (11#1)]]%Q; RScalar (12#1);
+         RLmi [[- (1#1); - (2#1)]; [- (2#1); - (3#1)]]%Q [[- (13#1); - (14#1)]; [- (15#1); - (16#1)]]%Q]).
+Proof. vm_compute. repeat split; reflexivity. Qed.
